@@ -12,16 +12,18 @@ From T38 Require Import Model.CollSel Proofs.CollSelProofs.
 Import ListNotations.
 Open Scope N_scope.
 
-(* SCAN key MATCH p1 .. MATCH pn [DESC]: the reply lists exactly the retrievable objects (what Get
-   returns) whose id matches one of the patterns, in id order (reversed for DESC), each once; the
-   COUNT form with LIMIT limit returns their number, capped by the limit — whether it is answered
-   from the counter (no pattern / "*") or by the counting iteration. *)
-Theorem c19_scan_paths_reach : forall c globs desc, Wf c -> ff_free globs ->
-  let reached := coll_scan_ids globs desc c in
+(* SCAN key MATCH p1 .. MATCH pn [DESC] LIMIT lim IDS (lim above the number of objects, so that LIMIT
+   does not cut; C11 has paging): the reply lists exactly the retrievable objects (what Get returns)
+   whose id matches one of the patterns, in id order (reversed for DESC), each once; the COUNT form
+   with LIMIT limit returns their number, capped by the limit — whether it is answered from the
+   counter (no pattern / "*") or by the counting iteration (pushObject stopping at LIMIT). *)
+Theorem c19_scan_paths_reach : forall c globs desc lim, Wf c -> ff_free globs ->
+  N.of_nat (length (scan_ids c)) < lim ->
+  let reached := coll_scan_ids globs desc c lim in
   reached = map o_id (filter (scan_hit globs) (if desc then rev (scan_ids c) else scan_ids c)) /\
   (forall id, In id reached <-> exists o, cget c id = Some o /\ glob_test globs id = true) /\
   NoDup reached /\
-  (forall limit, coll_scan_count globs desc c limit =
+  (forall limit, 1 <= limit -> coll_scan_count globs desc c limit =
                  N.min limit (N.of_nat (length (filter (scan_hit globs) (scan_ids c))))).
 Proof. exact coll_scan_reach. Qed.
 Print Assumptions c19_scan_paths_reach.
@@ -29,33 +31,38 @@ Print Assumptions c19_scan_paths_reach.
 (* SEARCH key MATCH p1 .. MATCH pn [DESC]: exactly the retrievable non-spatial objects whose string
    value matches one of the patterns, in (value, id) order (reversed for DESC), each once; COUNT =
    their number recomputed from the retrievable objects (scan_ids = what Get returns, c19_paths_agree). *)
-Theorem c19_search_paths_reach : forall c globs desc, Wf c -> ff_free globs ->
-  let reached := coll_search_ids globs desc c in
+Theorem c19_search_paths_reach : forall c globs desc lim, Wf c -> ff_free globs ->
+  N.of_nat (length (search_values c)) < lim ->
+  let reached := coll_search_ids globs desc c lim in
   reached = map o_id (filter (value_hit globs) (if desc then rev (search_values c) else search_values c)) /\
   (forall id, In id reached <->
      exists o, cget c id = Some o /\ o_spatial o = false /\ glob_test globs (o_str o) = true) /\
   NoDup reached /\
-  (forall limit, coll_search_count globs desc c limit =
+  (forall limit, 1 <= limit -> coll_search_count globs desc c limit =
                  N.min limit (N.of_nat (length (filter (search_hit globs) (scan_ids c))))).
 Proof. exact coll_search_reach. Qed.
 Print Assumptions c19_search_paths_reach.
 
 (* Hence after every history of Set / Delete, for every pattern set and both directions. *)
-Theorem c19_sel_paths_any_history : forall ops globs desc, ff_free globs ->
+Theorem c19_sel_paths_any_history : forall ops globs desc lim, ff_free globs ->
   let c := run ops in
-  (forall id, In id (coll_scan_ids globs desc c) <-> exists o, cget c id = Some o /\ glob_test globs id = true) /\
-  (forall id, In id (coll_search_ids globs desc c) <->
+  N.of_nat (length (scan_ids c)) < lim ->
+  (forall id, In id (coll_scan_ids globs desc c lim) <-> exists o, cget c id = Some o /\ glob_test globs id = true) /\
+  (forall id, In id (coll_search_ids globs desc c lim) <->
      exists o, cget c id = Some o /\ o_spatial o = false /\ glob_test globs (o_str o) = true) /\
-  NoDup (coll_scan_ids globs desc c) /\ NoDup (coll_search_ids globs desc c) /\
-  (forall limit, coll_scan_count globs desc c limit = N.min limit (N.of_nat (length (coll_scan_ids globs desc c)))) /\
-  (forall limit, coll_search_count globs desc c limit = N.min limit (N.of_nat (length (coll_search_ids globs desc c)))).
+  NoDup (coll_scan_ids globs desc c lim) /\ NoDup (coll_search_ids globs desc c lim) /\
+  (forall limit, 1 <= limit ->
+     coll_scan_count globs desc c limit = N.min limit (N.of_nat (length (coll_scan_ids globs desc c lim)))) /\
+  (forall limit, 1 <= limit ->
+     coll_search_count globs desc c limit = N.min limit (N.of_nat (length (coll_search_ids globs desc c lim)))).
 Proof. exact sel_paths_any_history. Qed.
 Print Assumptions c19_sel_paths_any_history.
 
 (* ASC and DESC are the same access path walked in opposite directions. *)
-Theorem c19_sel_desc_reverses : forall c globs, Wf c -> ff_free globs ->
-  coll_scan_ids globs true c = rev (coll_scan_ids globs false c) /\
-  coll_search_ids globs true c = rev (coll_search_ids globs false c).
+Theorem c19_sel_desc_reverses : forall c globs lim, Wf c -> ff_free globs ->
+  N.of_nat (length (scan_ids c)) < lim ->
+  coll_scan_ids globs true c lim = rev (coll_scan_ids globs false c lim) /\
+  coll_search_ids globs true c lim = rev (coll_search_ids globs false c lim).
 Proof. exact sel_desc_reverses. Qed.
 Print Assumptions c19_sel_desc_reverses.
 
@@ -70,11 +77,12 @@ Example c19_sel_nonvacuous :
                 OSet (Obj c2 true true 0 1 [] 0 (rect64_of_bits 0 0 0 0)); OSet (s [100; 49] [113])] in
   let globs := [[97; STAR]; [99; STAR]] in
   ff_free globs /\
-  coll_scan_ids globs false c = [a1; a2; c1; c2] /\ coll_scan_ids globs true c = [c2; c1; a2; a1] /\
+  coll_scan_ids globs false c 100 = [a1; a2; c1; c2] /\ coll_scan_ids globs true c 100 = [c2; c1; a2; a1] /\
   coll_scan_count globs true c 100 = 4 /\
-  coll_search_ids [[109; STAR]; [120; STAR]] true c = [c1; a1; a2] /\
+  coll_search_ids [[109; STAR]; [120; STAR]] true c 100 = [c1; a1; a2] /\
   coll_search_count [[109; STAR]; [120; STAR]] true c 100 = 3 /\
-  coll_search_count [] true c 100 = 4 /\ coll_scan_count [[STAR]] false c 2 = 2.
+  coll_search_count [] true c 100 = 4 /\ coll_scan_count [[STAR]] false c 2 = 2 /\
+  coll_scan_count globs false c 3 = 3.
 Proof.
   cbv zeta. split; [|vm_compute; repeat split].
   intros p [<-|[<-|[]]]; vm_compute; reflexivity.
